@@ -1,0 +1,59 @@
+//go:build verif
+// +build verif
+
+package choquet
+
+// Contracts for gocv (comment-only; compiled out unless the tag "verif" is set, and empty then).
+
+// ---- the Choquet integral, one tie group at a time (C03)
+//
+// capL: the capacity the parameters give to the listed criteria (the key is built from the sorted, joined names - string
+// structure outside the generator's subset, hence abstract; a function of the list object and the parameters, which are not
+// modified afterwards).
+//@ spec capL(names []string, w model.Weights) real
+
+// getWeightForCriteriaUnion sorts the list it is given in place and looks the joined key up (panics when it is missing)
+//@ func getWeightForCriteriaUnion
+//@   trusted
+//@   assigns *commonWeightCriteria
+//@   ensures [capacity_of_the_listed_criteria] result == capL(*commonWeightCriteria, *weights) && *commonWeightCriteria == old(*commonWeightCriteria)
+
+// Each iteration handles one group of tied values (within 1e-5 of the group's first value) and adds
+//   capacity(all criteria from the group's first position to the end) x (the group's first value - the previous group's first value),
+// with 0 before the first group: the property's formula, group by group (the summation over groups is the loop itself).
+//@ func computeTotalWeight
+//@   property C03
+//@   loop 1 invariant [ctx] 0 <= i && i <= totalElements && totalElements == len(*sortedCriteria) && unchanged(*sortedCriteria)
+//@   loop 1 invariant [starts_from_zero] i == 0 ==> previousWeight == 0.0 && result == 0.0
+//@   loop 1 invariant [next_group_differs] 0 < i && i < totalElements ==> abs(previousWeight - (*sortedCriteria)[i].weight) > 0.00001
+//@   loop 1 hint [one_group] head(i) < i && current == (*sortedCriteria)[head(i)] && previousWeight == current.weight
+//@             && forall k int :: head(i) < k && k < i ==> abs(current.weight - (*sortedCriteria)[k].weight) <= 0.00001
+//@   loop 1 hint [increment] result == head(result) + valueAdded && valueAdded == criteriaUnionWeight * (current.weight - head(previousWeight))
+//@             && criteriaUnionWeight == capL(commonWeightCriteria, *weights) && len(commonWeightCriteria) == totalElements - head(i)
+//@   loop 2 invariant [ctx] 0 <= i && i < totalElements && totalElements == len(*sortedCriteria) && unchanged(*sortedCriteria) && 0 <= x && x <= totalElements - i
+//@             && fresh(commonWeightCriteria) && len(commonWeightCriteria) == totalElements - i
+//@   loop 2 invariant [suffix_names] forall y int :: 0 <= y && y < x ==> commonWeightCriteria[y] == (*sortedCriteria)[i + y].criterion
+//@   loop 3 invariant [ctx] 0 <= i && i < j && j <= totalElements && totalElements == len(*sortedCriteria) && unchanged(*sortedCriteria) && current == (*sortedCriteria)[i]
+//@             && fresh(commonWeightCriteria) && len(commonWeightCriteria) == totalElements - i
+//@   loop 3 invariant [suffix_names] forall y int :: 0 <= y && y < totalElements - i ==> commonWeightCriteria[y] == (*sortedCriteria)[i + y].criterion
+//@   loop 3 invariant [ties] forall k int :: i < k && k < j ==> abs(current.weight - (*sortedCriteria)[k].weight) <= 0.00001
+
+//@ func (*criteriaWeights).Less
+//@   property C03
+//@   ensures [by_value] result <==> (*c)[i].weight < (*c)[j].weight
+
+// pairOf: an entry of the sorted list is one of the alternative's (criterion, value) pairs (or an unfilled zero slot)
+//@ pred pairOf(e criterionWeight, alt model.AlternativeWithCriteria) = (e.criterion == "" && e.weight == 0.0) || (e.criterion in alt.Criteria && e.weight == alt.Criteria[e.criterion])
+//@ func prepareCriteriaInAscendingOrder
+//@   property C03
+//@   ensures [ascending_values] result != nil && fresh(result) && forall a int, b int :: 0 <= a && a < b && b < len(*result) ==> (*result)[a].weight <= (*result)[b].weight
+//@   ensures [the_alternatives_values] forall k int :: 0 <= k && k < len(*result) ==> pairOf((*result)[k], *alternative)
+//@   loop 1 invariant [ctx] fresh(sorted) && i >= 0
+//@   loop 1 invariant [pairs] forall k int :: 0 <= k && k < len(sorted) ==> pairOf(sorted[k], *alternative)
+
+//@ func choquetIntegral
+//@   property C03
+//@   ensures [single_value] result != nil && typeis(result.Evaluation, model.EvaluationSingleValue) && result.Alternative == *alternative
+//@ func (*ChoquetIntegralPreferenceFunc).Evaluate$1
+//@   property C03
+//@   ensures [is_choquet] result != nil && typeis(result.Evaluation, model.EvaluationSingleValue) && result.Alternative == *alternative
